@@ -40,19 +40,27 @@ func plan(tier string) (n3, e4cases, random, stress int) {
 	return 128, 0, 60, 6
 }
 
+// depthRaces: targeted graphs (sched.DepthRace) appended after the stress cases.
+func depthRaces(tier string) int {
+	if tier == "thorough" {
+		return 300
+	}
+	return 48
+}
+
 func (prop) Cases(tier string) int {
 	n3, e4, rnd, st := plan(tier)
-	return n1 + n2 + n3 + e4 + rnd + st
+	return n1 + n2 + n3 + e4 + rnd + st + depthRaces(tier)
 }
 
 func (prop) Info() fw.Info {
 	return fw.Info{
 		Level: "exploration",
-		Rule: "cases enumerate every import digraph (self loops, 2-cycles, diamonds included) on 1 and 2 files, every 4th (quick; offset by seed) or every one (thorough) of the 512 digraphs on 3 files, thorough also every 64th of the 65536 digraphs on 4 files, then random graphs on 4..8 files, each with PRNG-chosen import spellings (relative, ./, x/../, ../, root-relative, with/without extension); for each graph, without depth limit and with one or two depth limits, the schedule controller enumerates the release orders of parked collectSpecs entries and parked reads (odometer over choice points, capped; beyond the cap PRNG-chosen schedules), plus free-running stress cases at GOMAXPROCS 1/2/16. Oracles per execution: reference closure from the graph alone (reachable files, BFS distance < limit, depth-first pre-order) vs the processed-file order and the marker applications in the model; exactly one claim and one read per file; every invocation returned before collection ends; shared application carries one source context per contributing file in processing order; model equal (proto) across all schedules and to an uncontrolled compile; no race report. Non-trivial: >= 2 distinct interleavings or a cycle/diamond; distinct by graph+spellings.",
+		Rule: "cases enumerate every import digraph (self loops, 2-cycles, diamonds included) on 1 and 2 files, every 4th (quick; offset by seed) or every one (thorough) of the 512 digraphs on 3 files, thorough also every 64th of the 65536 digraphs on 4 files, then random graphs on 4..8 files, then depth-race graphs (a file reachable from the root through a short and a long path with a tail of imports below it, with the depth limits that cut the tail along the long path only), each with PRNG-chosen import spellings (relative, ./, x/../, ../, root-relative, with/without extension); for each graph, without depth limit and with one or two depth limits, the schedule controller enumerates the release orders of parked collectSpecs entries and parked reads (odometer over choice points, capped; beyond the cap PRNG-chosen schedules), plus free-running stress cases at GOMAXPROCS 1/2/16. Oracles per execution: reference closure from the graph alone (reachable files, BFS distance < limit, depth-first pre-order) vs the processed-file order and the marker applications in the model; exactly one claim and one read per file; every invocation returned before collection ends; shared application carries one source context per contributing file in processing order; model equal (proto) across all schedules and to an uncontrolled compile; no race report. Non-trivial: >= 2 distinct interleavings or a cycle/diamond; distinct by graph+spellings.",
 		Assumptions: []string{"hook events are emitted at the documented points of collectSpecs (entry before the claim lock, won/lost after it is released)", "one controlled execution at a time per worker process (hook variables are global)", "remote (versioned git) imports are not generated: they need the network"},
 		Race:        true,
 		CaseTimeout: 600,
-		CountFloors: map[string]int{"executions": 1500, "interleavings": 800, "hook_events": 20000},
+		CountFloors: map[string]int{"executions": 1500, "interleavings": 800, "hook_events": 20000, "executions_with_depth_limit": 500, "reexpansions_after_shallower_arrival": 20},
 		SetFloors:   map[string]int{"shapes": 3},
 	}
 }
@@ -90,6 +98,20 @@ func judge(v *verdicts, g *sched.Graph, limit int, c *sched.Controller, out sche
 	}
 	res.Count("executions", 1)
 	res.Count("hook_events", len(c.Events))
+	// how often the workload drove the late-shallower-arrival path (a file already claimed is
+	// reached again through a shorter path and its imports are followed again)
+	lost := map[string]bool{}
+	for _, e := range c.Events {
+		switch {
+		case e.Kind == "lost":
+			lost[e.ID] = true
+		case e.Kind == "spawn" && e.N > 0 && lost[e.ID]:
+			res.Count("reexpansions_after_shallower_arrival", 1)
+		}
+	}
+	if limit > 0 {
+		res.Count("executions_with_depth_limit", 1)
+	}
 	switch {
 	case out.Panic != "":
 		res.Violate("panic|"+fw.MsgClass(out.Panic), "Parse panicked: "+out.Panic, art(""))
@@ -255,10 +277,15 @@ func runGraph(v *verdicts, g *sched.Graph, limit, cap int, r *fw.Rand) (interlea
 func (prop) Run(ctx *fw.Ctx, i int) fw.Result {
 	r := ctx.Rng()
 	var res fw.Result
-	n3, e4, rnd, _ := plan(ctx.Tier)
+	n3, e4, rnd, nst := plan(ctx.Tier)
 	var graphs []*sched.Graph
+	var raceLimits []int
 	stress := false
 	switch {
+	case i >= n1+n2+n3+e4+rnd+nst:
+		g, ls := sched.DepthRace(r)
+		graphs = append(graphs, g)
+		raceLimits = ls
 	case i < n1:
 		graphs = append(graphs, sched.FromBits(1, uint64(i), r))
 	case i < n1+n2:
@@ -329,6 +356,24 @@ func (prop) Run(ctx *fw.Ctx, i int) fw.Result {
 		limits := []int{0, r.Range(1, len(g.Names))}
 		if len(g.Names) >= 3 && ctx.Thorough() {
 			limits = append(limits, r.Range(2, 3))
+		}
+		if raceLimits != nil {
+			// depth-race graphs: the limits that separate the short from the long path (at most
+			// three of them, or two in the quick tier), enumerated deeper than the other families
+			limits = append([]int{}, raceLimits...)
+			max := 2
+			if ctx.Thorough() {
+				max = 3
+			}
+			for len(limits) > max {
+				k := r.Intn(len(limits))
+				limits = append(limits[:k], limits[k+1:]...)
+			}
+			cap = 30
+			if ctx.Thorough() {
+				cap = 80
+			}
+			res.Add("shapes", "depth-race")
 		}
 		for _, limit := range limits {
 			total += runGraph(v, g, limit, cap, r)
